@@ -16,7 +16,7 @@ import (
 // which owns the kernel.
 type gate interface {
 	send(wire []byte, dstPid uint32) int
-	recv() (b []byte, fromPid uint32, nonNetlink bool, errno int)
+	recv() (b []byte, fromPid uint32, groups uint32, nonNetlink bool, errno int)
 	close()
 }
 
@@ -106,12 +106,12 @@ func (p *kernelPort) doRecv() (*kern.Datagram, int) {
 type directGate struct{ p *kernelPort }
 
 func (g *directGate) send(wire []byte, dstPid uint32) int { return g.p.doSend(wire, dstPid) }
-func (g *directGate) recv() ([]byte, uint32, bool, int) {
+func (g *directGate) recv() ([]byte, uint32, uint32, bool, int) {
 	d, e := g.p.doRecv()
 	if d == nil {
-		return nil, 0, false, e
+		return nil, 0, 0, false, e
 	}
-	return d.Bytes, d.FromPid, d.NonNetlink, 0
+	return d.Bytes, d.FromPid, d.Groups, d.NonNetlink, 0
 }
 func (g *directGate) close() { g.p.k.Close() }
 
@@ -130,10 +130,10 @@ func (g *schedGate) send(wire []byte, dstPid uint32) int {
 	return int(r.Errno)
 }
 
-func (g *schedGate) recv() ([]byte, uint32, bool, int) {
+func (g *schedGate) recv() ([]byte, uint32, uint32, bool, int) {
 	t := g.sc.Me()
 	r := t.Sys(core.SysReq{Op: sysRecv})
-	return r.Data, uint32(r.A), r.N == 1, int(r.Errno)
+	return r.Data, uint32(r.A), uint32(r.A >> 32), r.N == 1, int(r.Errno)
 }
 
 func (g *schedGate) close() {
@@ -155,7 +155,7 @@ func (p *kernelPort) sysHandler(task int, req core.SysReq) core.SysResp {
 		if d.NonNetlink {
 			nn = 1
 		}
-		return core.SysResp{Data: d.Bytes, A: int64(d.FromPid), N: nn}
+		return core.SysResp{Data: d.Bytes, A: int64(d.FromPid) | int64(d.Groups)<<32, N: nn}
 	case sysClose:
 		p.k.Close()
 	}
@@ -207,7 +207,7 @@ func (s *stubNetlink) Send(msg syscall.NetlinkMessage) (uint32, error) {
 }
 
 func (s *stubNetlink) Receive(nonBlocking bool, p libaudit.NetlinkParser) ([]syscall.NetlinkMessage, error) {
-	b, _, _, e := s.gb.g.recv()
+	b, _, _, _, e := s.gb.g.recv()
 	if e != 0 {
 		return nil, syscall.Errno(e)
 	}
@@ -252,7 +252,7 @@ func (s *simSocket) Sendto(p []byte, flags int, to syscall.Sockaddr) error {
 }
 
 func (s *simSocket) Recvfrom(p []byte, flags int) (int, syscall.Sockaddr, error) {
-	b, from, nonNL, e := s.gb.g.recv()
+	b, from, groups, nonNL, e := s.gb.g.recv()
 	if e != 0 {
 		return -1, nil, syscall.Errno(e)
 	}
@@ -263,10 +263,8 @@ func (s *simSocket) Recvfrom(p []byte, flags int) (int, syscall.Sockaddr, error)
 	if nonNL {
 		return n, &syscall.SockaddrUnix{Name: "/spoof"}, nil
 	}
-	// the multicast group mask of the source address varies with the sender
-	// (bits 8.. of the simulated port id select it); only the port id says
-	// who sent the datagram.
-	return n, &syscall.SockaddrNetlink{Family: syscall.AF_NETLINK, Pid: from & 0xffff00ff, Groups: (from >> 8) & 0xff}, nil
+	// only the port id says who sent the datagram; the group mask varies freely
+	return n, &syscall.SockaddrNetlink{Family: syscall.AF_NETLINK, Pid: from, Groups: groups}, nil
 }
 
 func (s *simSocket) Close() error {
@@ -274,7 +272,10 @@ func (s *simSocket) Close() error {
 	return nil
 }
 
-// identifies reports whether err identifies the kernel errno e.
+// identifies reports whether err identifies the kernel errno e: the errno must
+// be recoverable from the error chain (errors.As / errors.Is), which is how a
+// Go caller identifies it. The one documented exception is AddRule, which
+// reports EEXIST as the fixed text "rule exists".
 func identifies(err error, e int, method string) (bool, string) {
 	if err == nil {
 		return false, "nil error"
@@ -287,11 +288,8 @@ func identifies(err error, e int, method string) (bool, string) {
 		return false, "error carries errno " + itoaI(int(en)) + " (" + en.Error() + ")"
 	}
 	text := err.Error()
-	if containsStr(text, syscall.Errno(e).Error()) {
-		return true, ""
-	}
 	if method == "AddRule" && e == kern.EEXIST && containsStr(text, "rule exists") {
 		return true, ""
 	}
-	return false, "error text " + quote(text) + " does not name errno " + itoaI(e)
+	return false, "error " + quote(text) + " does not carry errno " + itoaI(e) + " (" + syscall.Errno(e).Error() + ") in its chain"
 }
